@@ -258,6 +258,7 @@ CHECKS = {
         'stub': STUB_COMMON + ['courier.Server/Client -> fakes/courier (in-process transport: by-value arguments, one handler thread per request, wait_for_ready, DEADLINE_EXCEEDED = code 4, no cancellation of handlers; fault policy per call; node kill = partition for ever)', 'asyncio selector/self-pipe/clock -> simkit.aioloop.SimEventLoop'],
         'assumptions': ASSUME_COMMON + [
             'ownership beliefs of a pool driven by two threads are not used as an oracle (its threads may release each other\'s workers)',
+            'a heartbeat REQUEST with is_alive=True from the worker itself is a registration (the protocol has no incarnation number): it legitimately revives an unregistered worker, also when it was sent before the goodbye and delivered after it; "late or stale heartbeat" is judged on the refresh path only (results of the client-side pings)',
             'liveness is checked as: with the recorded heartbeat unchanged during the call, is_alive equals (t - h < '
             'threshold) for the call\'s start or end instant'],
         'probes': [],
